@@ -55,8 +55,8 @@ def foldCase (st : Settings) (lower : List Char → List Char) (s : List Char) :
   if st.caseInsens then lower s else s
 
 /-- the `Completion` object `filter_names` builds for a candidate -/
-def mkComp (like' : List Char) (fuzzy : Bool) (c : Cand) : Comp :=
-  { cand := c, likeLen := like'.length, fuzzy := fuzzy }
+def mkComp (likeLen : Nat) (fuzzy : Bool) (c : Cand) : Comp :=
+  { cand := c, likeLen := likeLen, fuzzy := fuzzy }
 
 /-- what one iteration of the `for name in completion_names` loop does -/
 inductive Step where
@@ -64,29 +64,30 @@ inductive Step where
   | mark (k : Key)       -- key recorded, but the name is a `del` target: not yielded
   | yield (c : Comp) (k : Key)
 
-def filterStep (st : Settings) (lower : List Char → List Char) (like' : List Char) (fuzzy : Bool)
-    (imported : List (List Char)) (c : Cand) (seen : List Key) : Step :=
+def filterStep (st : Settings) (lower : List Char → List Char) (like' : List Char) (likeLen : Nat)
+    (fuzzy : Bool) (imported : List (List Char)) (c : Cand) (seen : List Key) : Step :=
   if imported.contains c.str && c.str != like' then .skip
   else if pmatch (foldCase st lower c.str) like' fuzzy then
-    if seen.contains ((mkComp like' fuzzy c).dedupKey st) then .skip
-    else if c.isDel then .mark ((mkComp like' fuzzy c).dedupKey st)
-    else .yield (mkComp like' fuzzy c) ((mkComp like' fuzzy c).dedupKey st)
+    if seen.contains ((mkComp likeLen fuzzy c).dedupKey st) then .skip
+    else if c.isDel then .mark ((mkComp likeLen fuzzy c).dedupKey st)
+    else .yield (mkComp likeLen fuzzy c) ((mkComp likeLen fuzzy c).dedupKey st)
   else .skip
 
-/-- the loop of `filter_names`; `seen` is `comp_dct`, `like'` the (possibly lowered) fragment -/
-def filterLoop (st : Settings) (lower : List Char → List Char) (like' : List Char) (fuzzy : Bool)
-    (imported : List (List Char)) : List Cand → List Key → List Comp
+/-- the loop of `filter_names`; `seen` is `comp_dct`, `like'` the (possibly lowered) fragment,
+`likeLen` the length of the fragment measured before lowering -/
+def filterLoop (st : Settings) (lower : List Char → List Char) (like' : List Char) (likeLen : Nat)
+    (fuzzy : Bool) (imported : List (List Char)) : List Cand → List Key → List Comp
   | [], _ => []
   | c :: cs, seen =>
-    match filterStep st lower like' fuzzy imported c seen with
-    | .skip => filterLoop st lower like' fuzzy imported cs seen
-    | .mark k => filterLoop st lower like' fuzzy imported cs (k :: seen)
-    | .yield new k => new :: filterLoop st lower like' fuzzy imported cs (k :: seen)
+    match filterStep st lower like' likeLen fuzzy imported c seen with
+    | .skip => filterLoop st lower like' likeLen fuzzy imported cs seen
+    | .mark k => filterLoop st lower like' likeLen fuzzy imported cs (k :: seen)
+    | .yield new k => new :: filterLoop st lower like' likeLen fuzzy imported cs (k :: seen)
 
 /-- `filter_names(...)` -/
 def filterNames (st : Settings) (lower : List Char → List Char) (cands : List Cand)
     (like : List Char) (fuzzy : Bool) (imported : List (List Char)) : List Comp :=
-  filterLoop st lower (foldCase st lower like) fuzzy imported cands []
+  filterLoop st lower (foldCase st lower like) like.length fuzzy imported cands []
 
 /-! ### sort key -/
 
